@@ -6,9 +6,11 @@
 (* compression, delimiter, the pre-existing backups as ages in hours, the  *)
 (* bytes already in the current file, how backup names are produced), then *)
 (* MaxOps operations - write(size) or, under the daily rule, a simulated   *)
-(* day change - then "close".  Nothing is predicted: where rotations       *)
-(* happen is the implementation's choice (RotateLog.tla); the directory    *)
-(* states recorded by the driver are judged by RotateLogTrace.tla.         *)
+(* day change, or a burst / flood of writes with no barrier - then "close" *)
+(* (or Close with a burst still queued).  Nothing is predicted: where      *)
+(* rotations happen is the implementation's choice (RotateLog.tla); the    *)
+(* directory states recorded by the driver are judged by                   *)
+(* RotateLogTrace.tla.                                                     *)
 (***************************************************************************)
 EXTENDS Integers, Sequences, Json, TLC
 
@@ -18,7 +20,8 @@ CONSTANTS GConfigs,   \* set of configuration records
           MaxDay,     \* simulated day changes per behaviour (daily rule)
           GFams,      \* log files a record may be sent to ({""} = the single writer)
           GBurst,     \* size tuples of the bursts / of the records queued at Close ({} = none)
-          GPrefixes   \* size tuples written (one barriered write each) before the enumerated operations ({<<>>} = none)
+          GPrefixes,  \* size tuples written (one barriered write each) before the enumerated operations ({<<>>} = none)
+          GFloods     \* floods <<n, s, d>>: bursts of n small records, n beyond the capacity of the writer's queue ({} = none)
 
 VARIABLES hist, cfg, nday, fin, base    \* base = Len(hist) after init and prefix
 
@@ -34,6 +37,14 @@ GInit == /\ cfg \in GConfigs
 GWrite(s, f) == /\ ~fin /\ Len(hist) - base < MaxOps
                 /\ hist' = Append(hist, [op |-> "write", size |-> s, fam |-> f])
                 /\ UNCHANGED <<cfg, nday, fin, base>>
+
+\* A flood is a burst of ONE producer that is longer than the writer's queue (100 slots): n small
+\* self-identifying records written in a tight loop with no barrier, sizes cycling through s, s+d,
+\* s+2d.  The producer outruns the writer goroutine, finds the queue full and Write has to wait;
+\* whatever Write does then, a record it accepted and that was processed before Close must be in
+\* the files after every record accepted before it (RotateLogRel!BurstFailed, clause burst-order).
+FloodSizes(fl) == [i \in 1..fl[1] |-> fl[2] + (i % 3) * fl[3]]
+Bursts == GBurst \cup {FloodSizes(fl) : fl \in GFloods}
 
 \* several writes with no barrier between them
 GBurstOp(b, f) == /\ ~fin /\ Len(hist) - base < MaxOps
@@ -60,7 +71,7 @@ GClose == /\ ~fin /\ Len(hist) - base = MaxOps
           /\ UNCHANGED <<cfg, nday, base>>
 
 GNext == \/ \E s \in GSizes, f \in GFams : GWrite(s, f)
-         \/ \E b \in GBurst, f \in GFams : GBurstOp(b, f) \/ GCloseQ(b, f)
+         \/ \E b \in Bursts, f \in GFams : GBurstOp(b, f) \/ GCloseQ(b, f)
          \/ GDay \/ GClose
 
 GSpec == GInit /\ [][GNext]_gvars
